@@ -143,7 +143,7 @@ pub fn jobs(ctx: &Ctx) -> Vec<J> {
             jobs.push(J::Generator { v, level });
         }
     }
-    let dense = ctx.tier.pick(12, ctx.scale(1500));
+    let dense = ctx.tier.pick(24, ctx.scale(6000));
     let mut k = 0u64;
     for v in 1..=40usize {
         for level in 0..4usize {
@@ -151,7 +151,7 @@ pub fn jobs(ctx: &Ctx) -> Vec<J> {
                 k += 1;
                 jobs.push(J::Dense { v, level, kind: if i < 6 { i } else { 0 }, seed: mix(ctx.seed, k) });
             }
-            for _ in 0..ctx.tier.pick(3, ctx.scale(60)) {
+            for _ in 0..ctx.tier.pick(6, ctx.scale(240)) {
                 k += 1;
                 jobs.push(J::Linear { v, level, seed: mix(ctx.seed, k) });
             }
